@@ -11,6 +11,13 @@ verus! {
 
 // ---- opaque types (bodies not needed by this unit) ----
 #[verifier::external_body] pub struct OutputList { _p: u8 }
+/// output events built by hand (in scope so that a change constructing them still translates): an arbitrary list, NOT the verbatim copy
+pub enum OutputEvent { Empty(SvgElement), Start(SvgElement), End(String), Text(String) }
+impl vstd::std_specs::convert::FromSpecImpl<Vec<OutputEvent>> for OutputList {
+    open spec fn obeys_from_spec() -> bool { false }
+    uninterp spec fn from_spec(v: Vec<OutputEvent>) -> Self;
+}
+impl From<Vec<OutputEvent>> for OutputList { #[verifier::external_body] fn from(v: Vec<OutputEvent>) -> (r: OutputList) { unimplemented!() } }
 #[verifier::external_body] pub struct BoundingBox { _p: u8 }
 impl Clone for BoundingBox { #[verifier::external_body] fn clone(&self) -> (r: Self) ensures r == *self { unimplemented!() } }
 impl Copy for BoundingBox {}
@@ -266,7 +273,7 @@ impl EventGen for SvgElement {
 //@rewrite strlit strmatch
 //@item src/transform.rs :: impl EventGen for SvgElement :: fn generate_events
 //@ strlit "loop" "config" "reuse" "specs" "var" "if" "defaults" "for" "g" "symbol" "clip-path" "svg" "xmlns"
-//@ replace[R-into] <<<Ok((self.all_events(context).into(), None))>>> => <<<Ok((self.all_events_verbatim(context), None))>>>
+//@ replace?[R-into] <<<self.all_events(context).into()>>> => <<<self.all_events_verbatim(context)>>>
 //@ replace-re[R-andthen] <<<self\.get_attr\("clip-path"\)\s*\.and_then\(\|url\| extract_urlref\(&url\)\)>>> => <<<clip_ref(self)>>>
 //@ before <<<bbox = el_bbox.intersect(&clip_bbox);>>>
 //@ | assert(!(self.name@ == "reuse"@)); // the box of a <reuse> is the box of what it emitted: the instance elements carry (and are clipped by) their own clip-path, a clip-path on the <reuse> itself is not copied to them @C08.clip.reuse_box_is_its_instances
